@@ -297,11 +297,17 @@ func checkC09(c *Ctx) {
 			if class == "shape" {
 				arg = s // a JSON clone would turn the allocated empty lists into nil ones
 			}
+			argBefore := exactJSON(arg)
 			if pv, st := guard(func() { werr = cache.WriteSpec(arg, name) }); pv != nil {
 				cs.Violation("panic", tags, fmt.Sprintf("WriteSpec panics: %v", pv), wit(map[string]any{"stack": st}))
 				return
 			}
 			c.Count("writes", 1)
+			// the Spec object is the caller's: writing it out is no licence to change it
+			if after := exactJSON(arg); after != argBefore {
+				cs.Violation("argument-modified", tags, fmt.Sprintf("WriteSpec(%s) changed the Spec object it was given (%s = %q)\n before %s\n after  %s", name, field, val, clip(argBefore, 1500), clip(after, 1500)), wit(nil))
+				return
+			}
 			c.Distinct(field + "|" + class + "|" + enc + "|" + func() string {
 				if class == "composed" {
 					return val
